@@ -24,6 +24,9 @@ RuntimeError (key C06:cached-query-on-temporary, owned by C06).
 
 Round 4 (seeded change C13_w4m1): DERIVED-AFTER-QUERY — see the comment above `run_derived`.
 
+Round 5 (seeded change C13_w5m2): DEEP automata — simple paths of 1000–5000 useful states, closed-form answers, no
+model round trip; see the comment above `deep_do` and harness/dfa_query_deep.py.
+
 Round 3 (seeded changes C13_w3m1 / C13_w3m2): SESSIONS — 4–16 C13 queries asked one after the other of ONE
 live object (count, words, partially consumed words generator, iteration prefix, min/max/empty/finite,
 cardinality/len, random_word, clear_cache, the same queries on `live.copy()`), every enumeration / count
@@ -47,6 +50,7 @@ from harness import dfa_query_lib as L
 from harness import dfa_query_lib2 as L2
 from harness import dfa_query_lib3 as L3
 from harness import dfa_history_lib as H
+from harness import dfa_query_deep as DP
 from harness.common import guarded as case_guard
 from harness.common import Ctx, Toks, call, enc_dfa, toks
 
@@ -66,7 +70,15 @@ RULE = ("cases = (valid DFA, query, parameters) with query ∈ {count k, words k
         "intersection, difference, symmetric difference with itself or a second DFA on either side, as methods and "
         "operators; optionally a second derivation from the first result), then the C13 queries on the DERIVED object(s) "
         "and on the source again, every answer judged on the definition of the object that was asked (corpus × every "
-        "operation × source queried or not; random sources, half of them complete); a case is "
+        "operation × source queried or not; random sources, half of them complete); round 5: DEEP automata = simple "
+        "paths of 1000–5000 useful states built by the library's constructors from a small spec (of_length with min = max "
+        "in the thousands / min = 0 / no upper bound = chain ending in a self-loop, from_finite_language with a word of "
+        "1000+ symbols next to a one-letter word, hand-written partial chains: with a short side branch, ending in a live "
+        "cycle, ending in a dead cycle, without final state; sizes drawn from the seed) × every query (min / max / isfinite "
+        "/ isempty and short prefixes / small k on 1500–5000 states, one fresh copy each; count, random_word, cardinality, "
+        "len, words_of_length, iteration AT the depth of the chain on 1030–1120 states, several on one object), answers "
+        "known in closed form from the spec — no model round trip; the same specs scaled down to ≤ 12 states are judged "
+        "by the closed form and by the brute-force oracle together; a case is "
         "non-trivial when the language is non-empty and the DFA has ≥2 states; distinct = distinct "
         "(definition, query, parameters)")
 ASSUMPTIONS = [
@@ -89,7 +101,10 @@ ASSUMPTIONS = [
 ]
 EXPLANATION = ("Theorems C13_* characterise the model's tables, lengths, cardinality, iteration and "
                "random_word by the language of the DFA for every DFA and k; this run ties the model to "
-               "the code by differential execution and evaluates the property on the real code by brute force.")
+               "the code by differential execution and evaluates the property on the real code by brute force.  The "
+               "theorems hold for DFAs of every size; the differential part stops at 14 states, so the DEEP family asks "
+               "the real code about automata with paths of 1000–5000 states whose answers are known in closed form "
+               "(RecursionError / no answer within 20 s on such an input is a failure of the property on the real code).")
 
 FAIL_KEY = None
 
@@ -1308,6 +1323,292 @@ def derived_family(ctx: Ctx, n_random: int):
             return
 
 
+# --------------------------------------------------------------- round 5: DEEP DFAs (size thresholds of the algorithms)
+# The property quantifies over ALL valid DFAs; every generator above stops at 14 states, so nothing ever walked a
+# simple path of more than a dozen useful states.  An implementation of a query that is right on every small DFA
+# can still fail from some SIZE on: a recursive search / recursive DP hits Python's recursion limit near 1000
+# frames (RecursionError instead of the answer), a quadratic or worse traversal no longer answers in reasonable
+# time.  This family builds a handful of automata with simple paths of 1000–5000 states through the library's own
+# constructors — DFA.of_length with min = max in the thousands, with min = 0 (every state final), without upper
+# bound (a chain that ends in a cycle), DFA.from_finite_language with a word of 1000+ symbols and a one-letter
+# word next to it, hand-written partial chains: plain, with a short side branch, ending in a live cycle, ending in
+# a DEAD cycle, without any final state — and asks every C13 query.  The languages are known in CLOSED FORM from
+# the construction parameters (harness/dfa_query_deep.py), so the answers need neither the library nor the Lean
+# model: NO model round trip is made for these cases (stat `deep:closed_form_oracle_no_model_round_trip`).  The
+# closed form is tied to the real objects twice: (1) `selfcheck`: its membership predicate is compared with the
+# real accepts_input on the boundary words of each deep automaton; (2) `deep_small_twins`: the same specs scaled
+# down to ≤ 12 states are judged by the closed form AND by the brute-force SessionOracle (every answer of the
+# two oracles must coincide).
+# Cost: the linear queries (min / max / isfinite / isempty, short prefixes / small k on huge automata) are asked
+# of automata with 1500–5000 states, one fresh copy per query; the queries whose DP tables are inherently
+# (length × states) — count / random_word / cardinality / len at the depth of the chain, words_of_length and
+# iteration of words that deep — are asked of automata with 1030–1120 states, several of them of ONE object so that
+# the tables are built once.  A failing step is re-asked alone on a newly built object (and the recorded replay
+# shrinks to that one step when it fails alone).
+DEEP_TIMEOUT_S = 20
+
+
+def deep_do(x: DFA, s: dict, keep: list):
+    """One query on the live object x: ("ok", value) / ("err", class name) / ("err", "_Timeout")."""
+    q = s["q"]
+    g = lambda f: L.guarded(f, DEEP_TIMEOUT_S)
+    if q == "count":
+        return g(lambda: x.count_words_of_length(s["k"]))
+    if q == "words":
+        return g(lambda: list(x.words_of_length(s["k"])))
+    if q == "iter":
+        def pre():
+            it = iter(x)
+            keep.append(it)
+            return list(itertools.islice(it, s["n"]))
+        return g(pre)
+    if q == "random":
+        return g(lambda: x.random_word(s["k"], seed=s["seed"]))
+    f = {"min": lambda: x.minimum_word_length(), "max": lambda: x.maximum_word_length(), "empty": lambda: x.isempty(),
+         "finite": lambda: x.isfinite(), "card": lambda: x.cardinality(), "len": lambda: len(x)}[q]
+    return g(f)
+
+
+def run_deep(lang: "DP.DeepLang", steps, built: DFA = None):
+    """Ask the steps of ONE fresh object built from the spec; (index, message, observation) of the first wrong
+    answer, or None."""
+    d = (built if built is not None else lang.build()).copy()
+    keep = [d]
+    for i, s in enumerate(steps):
+        got = deep_do(d, s, keep)
+        msg = DP.judge(lang, s, got)
+        if msg is not None:
+            if got == ("err", "_Timeout"):
+                msg = f"gave no answer within {DEEP_TIMEOUT_S} s (expected {DP.short(DP.expected(lang, s)[1])})"
+            return i, msg, got
+    return None
+
+
+def deep_what(lang, steps, i, msg) -> str:
+    hist = "; ".join(show_step(s) for s in steps[:i])
+    return (f"{show_step(steps[i])} {msg} — on {lang.expr()} ({lang.n_states_expected()}+ states on one simple path)"
+            + (f", asked of ONE object after [{hist}]" if hist else ", first query on a fresh object"))
+
+
+def deep_selfcheck(ctx: Ctx, lang, d: DFA) -> bool:
+    """The closed-form membership predicate vs the real accepts_input on the boundary words."""
+    for w in lang.probe_words(ctx.rng):
+        ctx.stat("deep:selfcheck_words_through_accepts_input")
+        real = call(lambda: d.accepts_input(w))
+        if real != ("ok", lang.member(w)):
+            ctx.stat("deep:selfcheck_disagreement")
+            ctx.corr_diff("deep-closed-form", dict(automaton=lang.expr(), spec=lang.spec, word=DP.short(w)),
+                          dict(accepts_input=real), dict(closed_form_member=lang.member(w)))
+            return False
+    return True
+
+
+@case_guard
+def check_deep(ctx: Ctx, spec: dict, groups, origin: str):
+    """groups: lists of steps; every group is asked of ONE fresh copy of the automaton built from `spec`."""
+    if L.TIMEOUTS >= 2 or new_fails(ctx) >= 4:
+        ctx.stat("deep:skipped_after_failures")
+        return
+    lang = DP.DeepLang(spec)
+    b = call(lang.build)
+    if b[0] == "err":
+        # whether the constructor works on such sizes is C15's statement
+        ctx.stat("deep:construction_raised")
+        ctx.corr_diff("deep-construction", dict(automaton=lang.expr(), spec=spec), f"raised {b[1]}", "a DFA")
+        return
+    d = b[1]
+    ctx.stat(f"deep:{origin}:{lang.kind}")
+    ctx.stat(f"deep:{origin}:lang:{lang.shape_name()}")
+    if origin == "deep":
+        ctx.stat(f"deep:states:{len(d.states) // 500 * 500}+")
+        ctx.stat("deep:closed_form_oracle_no_model_round_trip")
+    if not deep_selfcheck(ctx, lang, d):
+        return
+    if ctx.stats.get(f"deep:{origin}:{lang.kind}", 0) == 1:
+        ctx.sample(dict(automaton=lang.expr(), states=len(d.states), closed_form=dict(
+            min=lang.min(), max=lang.max(), finite=lang.finite(), cardinality=DP.short(lang.card()),
+            first_words=DP.short(lang.first(3))), groups=[[show_step(s) for s in g] for g in groups[:6]]))
+    for steps in groups:
+        for s in steps:
+            ctx.case(("deep", json.dumps(spec, sort_keys=True), json.dumps(s, sort_keys=True))
+                     if not lang.empty() else None)
+            ctx.stat(f"{origin}_q:{s['q']}")
+        if len(steps) > 1:
+            ctx.stat(f"deep:{origin}:several_queries_on_one_object")
+        r = run_deep(lang, steps, d)
+        if r is None:
+            continue
+        i, msg, got = r
+        # re-confirm on a newly built object: the step alone, else the recorded prefix
+        small = None
+        for cand in ([steps[i]], steps[: i + 1]):
+            r2 = run_deep(lang, cand)
+            if r2 is not None and r2[0] == len(cand) - 1:
+                small, msg = cand, r2[1]
+                break
+        if small is None:
+            ctx.stat("deep:failure_not_reproduced")
+            if got == ("err", "_Timeout"):
+                ctx.note(f"deep family: {show_step(steps[i])} on {lang.expr()} timed out once and answered on the second try")
+            else:
+                ctx.corr_diff("deep-not-reproduced", dict(automaton=lang.expr(), spec=spec, steps=steps[: i + 1]),
+                              DP.short(got), DP.short(DP.expected(lang, steps[i])[1]))
+            continue
+        what = deep_what(lang, small, len(small) - 1, msg)
+        ctx.prop_fail(what, dict(automaton=lang.expr(), op="deep", params=dict(spec=spec, steps=small), what=what), FAIL_KEY)
+        if L.TIMEOUTS >= 2 or new_fails(ctx) >= 4:
+            return
+
+
+def singles(*steps):
+    return [[dict(s)] for s in steps]
+
+
+Q = dict(min=dict(q="min"), max=dict(q="max"), finite=dict(q="finite"), empty=dict(q="empty"), card=dict(q="card"),
+         len=dict(q="len"))
+LINEAR = [Q["max"], Q["finite"], Q["min"], Q["empty"]]
+
+
+def deep_plan(rng, thorough: bool):
+    """[(spec, groups)] — sizes are drawn from rng, the shapes are fixed (each query is covered every run)."""
+    ab, a = ["a", "b"], ["a"]
+    sd = lambda: rng.randrange(1 << 30)
+    big = lambda: rng.randint(3000, 5000)
+    mid = lambda: rng.randint(1500, 2500)
+    quad = lambda: rng.randint(1030, 1120)      # just above the recursion limit: the (length × states) tables
+    plan = []
+    # A1: all words of length exactly N over two symbols (the chain has N+1 useful states)
+    n = big()
+    plan.append((dict(kind="of_length", syms=ab, lo=n, hi=n),
+                 singles(*LINEAR, dict(q="count", k=rng.randint(0, 6)), dict(q="words", k=2),
+                         dict(q="random", k=rng.randint(0, 5), seed=sd()))))
+    # A2: all words of length ≤ N (every state final): short prefixes / small k on a huge automaton
+    n = big()
+    plan.append((dict(kind="of_length", syms=ab, lo=0, hi=n),
+                 singles(*LINEAR, dict(q="iter", n=rng.randint(4, 9)), dict(q="count", k=rng.randint(5, 10)),
+                         dict(q="words", k=3), dict(q="random", k=rng.randint(4, 9), seed=sd()))))
+    # A3: a^N a* — a chain ending in a cycle (self-loop)
+    n = big()
+    plan.append((dict(kind="of_length", syms=a, lo=n, hi=None),
+                 singles(*LINEAR, Q["card"], Q["len"], dict(q="count", k=rng.randint(0, 6)),
+                         dict(q="random", k=rng.randint(0, 5), seed=sd()))))
+    # A4: {b, (ab)^M}: a word of 1500–2500 symbols next to a one-letter word
+    m = mid() // 2
+    plan.append((dict(kind="finite_language", syms=ab, words=[["b", 1, ""], ["ab", m, ""]]),
+                 singles(*LINEAR, dict(q="iter", n=1), dict(q="count", k=1), dict(q="words", k=1),
+                         dict(q="random", k=1, seed=sd()))))
+    # A5: hand-written chain with a short side branch near its start
+    n, j, ln = mid(), rng.randint(2, 9), rng.randint(1, 3)
+    sp = dict(kind="chain", syms=ab, n=n, pat="ab", finals=[n], back=None, branch=[j, "ab"[(j + 1) % 2], ln])
+    plan.append((sp, singles(*LINEAR, dict(q="iter", n=1), dict(q="count", k=j + ln), dict(q="words", k=j + ln),
+                             dict(q="random", k=j + ln, seed=sd()))))
+    # A6: hand-written chain ending in a live cycle of 2–5 states
+    n, c = mid(), rng.randint(2, 5)
+    plan.append((dict(kind="chain", syms=ab, n=n, pat="aab", finals=[n], back=n - c + 1, branch=None),
+                 singles(*LINEAR, Q["card"], Q["len"], dict(q="random", k=rng.randint(0, 5), seed=sd()))))
+    # A7: chain whose last states form a DEAD cycle (no final state on it): the language is finite
+    n, c = mid(), rng.randint(1, 4)
+    t = n - c + 1
+    plan.append((dict(kind="chain", syms=a, n=n, pat="a", finals=[t - 1], back=t, branch=None),
+                 singles(*LINEAR)))
+    # A8: a deep automaton with the EMPTY language
+    n = mid()
+    plan.append((dict(kind="chain", syms=ab, n=n, pat="ab", finals=[], back=None, branch=None),
+                 singles(*LINEAR, Q["card"], Q["len"], dict(q="iter", n=2), dict(q="count", k=0),
+                         dict(q="random", k=0, seed=sd()))))
+    # Q1: a^N exactly — count / random_word / cardinality / len AT the depth of the chain (one count table)
+    n = quad()
+    plan.append((dict(kind="of_length", syms=a, lo=n, hi=n),
+                 [[dict(q="count", k=n), dict(q="count", k=n - 1), dict(q="random", k=n, seed=sd()), Q["card"], Q["len"],
+                   dict(q="random", k=n - 1, seed=sd())]]))
+    # Q2: {b, (ab)^M} with 2M just above 1000: the whole iteration and words_of_length of the long word
+    m = quad() // 2
+    plan.append((dict(kind="finite_language", syms=ab, words=[["b", 1, ""], ["ab", m, ""]]),
+                 [[dict(q="iter", n=3), dict(q="words", k=2 * m)]]))
+    # Q3: chain ending in a cycle: the first words of the iteration are N, N+c, N+2c symbols long
+    n, c = quad(), 2
+    plan.append((dict(kind="chain", syms=ab, n=n, pat="ab", finals=[n], back=n - c + 1, branch=None),
+                 [[dict(q="iter", n=3)]]))
+    if thorough:
+        n = rng.randint(1300, 1800)
+        j = rng.randint(n // 3, n // 2)
+        sp = dict(kind="chain", syms=ab, n=n, pat="ab", finals=[n], back=None, branch=[j, "ab"[(j + 1) % 2], 2])
+        plan.append((sp, [[Q["card"], Q["len"], dict(q="count", k=j + 2), dict(q="random", k=n, seed=sd())],
+                          [dict(q="iter", n=3)], [dict(q="words", k=n)]] + singles(*LINEAR)))
+        n = rng.randint(1300, 1800)
+        plan.append((dict(kind="of_length", syms=ab, lo=n, hi=n),
+                     [[dict(q="count", k=n), dict(q="random", k=n, seed=sd()), Q["card"]]] + singles(*LINEAR)))
+        m = rng.randint(700, 900)
+        plan.append((dict(kind="finite_language", syms=ab, words=[["b", 1, ""], ["ab", m, ""], ["ab", m // 2, "b"]]),
+                     [[Q["card"], Q["len"], dict(q="random", k=2 * m, seed=sd())], [dict(q="iter", n=4)]] + singles(*LINEAR)))
+    return plan
+
+
+def shrink_spec(spec: dict, rng) -> dict:
+    """The same shape with 5–9 states on its path."""
+    s = json.loads(json.dumps(spec))
+    n = rng.randint(5, 9)
+    if s["kind"] == "of_length":
+        s["lo"] = 0 if spec["lo"] == 0 else n
+        s["hi"] = None if spec["hi"] is None else n
+    elif s["kind"] == "finite_language":
+        s["words"] = [[u, (r if r == 1 else max(1, n // 2)), t] for u, r, t in s["words"]]
+    else:
+        c = (spec["n"] - spec["back"] + 1) if spec["back"] is not None else None
+        s["n"] = n
+        if spec["finals"]:
+            s["finals"] = [n] if spec["finals"] == [spec["n"]] else [n - c]
+        if c is not None:
+            s["back"] = n - c + 1
+        if spec["branch"] is not None:
+            j = rng.randint(1, 3)
+            s["branch"] = [j, "ab"[(j + 1) % 2], spec["branch"][2]]
+    return s
+
+
+@case_guard
+def deep_small_twin(ctx: Ctx, spec: dict):
+    """The closed form against the brute-force oracle (accepts_input enumeration, subset simulation) on a scaled
+    down automaton of the same shape: both oracles must dictate the same answer to every step — and the library
+    must give it."""
+    lang = DP.DeepLang(spec)
+    d = lang.build()
+    orc = SessionOracle(d, min(12, lang.n_states_expected() + 2))      # ≤ 2^13 words through accepts_input
+    top = orc.hi
+    steps = [dict(Q[q]) for q in ("min", "max", "finite", "empty", "card", "len")]
+    steps += [dict(q="count", k=k) for k in range(top + 1)] + [dict(q="words", k=k) for k in range(top + 1)]
+    total = len(orc.ordered)
+    steps += [dict(q="iter", n=n) for n in sorted({0, 1, 3, total, total + 2} if lang.finite() else
+                                                  {0, min(total, 1), min(total, 3), min(total, 6)})]
+    ctx.stat("deep:small_twin")
+    for s in steps:
+        ctx.stat("deep:small_twin_answers_judged_by_both_oracles")
+        mode, exp = DP.expected(lang, s)
+        got = deep_do(d.copy(), s, [])
+        brute = orc.judge(s, exp)          # the closed-form answer, judged by the brute-force oracle
+        if brute is not None:
+            raise L.InfraError(f"C13 deep family: closed form and brute force disagree on {lang.expr()} "
+                               f"{show_step(s)}: closed form {exp} {brute}")
+        if DP.judge(lang, s, got) is not None:
+            what = f"{show_step(s)} {DP.judge(lang, s, got)} — on {lang.expr()}"
+            ctx.prop_fail(what, dict(automaton=lang.expr(), op="deep", params=dict(spec=spec, steps=[s]), what=what), FAIL_KEY)
+            return
+    for k in range(top + 1):
+        for w in orc.bw[k]:
+            if not lang.member(w):
+                raise L.InfraError(f"C13 deep family: closed-form membership rejects accepted word {w!r} of {lang.expr()}")
+    ctx.case(("deep-twin", json.dumps(spec, sort_keys=True)) if not lang.empty() else None)
+
+
+def deep_family(ctx: Ctx):
+    rng = ctx.rng
+    plan = deep_plan(rng, ctx.thorough())
+    for spec, _ in plan:
+        deep_small_twin(ctx, shrink_spec(spec, rng))
+    for spec, groups in plan:
+        check_deep(ctx, spec, groups, "deep")
+
+
 def corpus():
     ab = {"a", "b"}
     yield "F3_empty_language", DFA.empty_language(ab)
@@ -1347,6 +1648,9 @@ def run(ctx: Ctx):
         check_dfa(ctx, d, "corpus", uniform=True)
         if hanging():
             return
+    deep_family(ctx)
+    if hanging():
+        return
     session_family(ctx)
     if hanging():
         return
@@ -1400,6 +1704,15 @@ def replay(ctx: Ctx, path: str) -> int:
                 print(f"  {show_step(steps[idx])} asked of {who} {msg} — history: {show_derivation(case, where)}")
             else:
                 print(f"  derivation #{out['derive_error'][0] + 1} of the recorded case raised {out['derive_error'][1]}")
+            return 1
+        print("replay: property holds on this input now")
+        return 0
+    if op == "deep":
+        lang = DP.DeepLang(params["spec"])
+        r = run_deep(lang, params["steps"])
+        if r is not None:
+            print(f"VIOLATION property=C13 replay={path}")
+            print("  " + deep_what(lang, params["steps"], r[0], r[1]))
             return 1
         print("replay: property holds on this input now")
         return 0
